@@ -3,12 +3,12 @@ CONSTANTS
   Unit = 10
   MaxU = 2147483647
   MaxS = 2147483647
-  Protocol = TRUE
+  Protocol = FALSE
   CfgIds = {1, 2, 3, 4, 5, 6}
   MaxDepth = 40
   Sample = 1
   PriceMoves = {7, 8, 9, 10, 11, 12, 13}
-  GuardShares = TRUE
+  GuardShares = FALSE
   Rich = TRUE
 VIEW View
 INVARIANTS MonitorsHold Emitted
